@@ -943,7 +943,11 @@ def run(ctx: core.Check):
         "infinite bounds (division by a box touching zero) are outside the rational model: such histories are checked by the oracle only",
         "constructors are opaque: the model receives the arrays they pass to Staircase/Leaf (their meaning is C08/C09/C10)",
     ]
-    ctx.lean_stage(LEAN_MODULES)
+    def _ctor():
+        from .translator import ctor
+        r = ctor.generate(core.REPO, core.LEAN / "Pun/Gen/CtorGen.lean")
+        return "ok: " + "; ".join(f"{k} {v}" for k, v in r.items())
+    ctx.lean_stage(LEAN_MODULES, generators=[("constructor validation of utils.py / pbox_abc.py (ctor translator)", _ctor)])
 
     # ---- moment stream starts first (worker processes, real moment code) -------------------------
     mspecs = moment_specs(ctx)
@@ -1739,7 +1743,7 @@ def sequence_stream(ctx):
                      f"the p-box returned by {name} reads differently at the end of the sequence")
 
 
-LEAN_MODULES = ["Pun.Lemmas.WellFormed", "Pun.Props.C04"]
+LEAN_MODULES = ["Pun.Lemmas.WellFormed", "Pun.Props.C04", "Pun.Props.C04Gen"]
 
 
 def _leaf_ids(s, acc):
